@@ -235,6 +235,20 @@ def main(tier):
             if frm in cfg_enums and (fnp, frm) not in seen_c:
                 seen_c.add((fnp, frm))
                 run.ob(False, "enum-discriminant|%s" % fnp.replace("::<'a>", ""), "C17 no code depends on the numeric discriminant of an enum whose variants are feature-gated (it shifts with the feature set)", "%s line %s" % (fnp, line), "`%s as %s`" % (frm, to))
+    # evaluator isolation: module identity only implies identical behaviour if no evaluator's result can depend on
+    # a sibling that exists in some subsets only: no crate state, and the entry points are the plain
+    # strip -> parse -> eval chain (shared premise)
+    try:
+        from ..model import Model
+        from ..premises import entry_chains
+        fdoc = extract.load()
+        FF = Facts(fdoc)
+        bad_statics = [s_ for s_ in fdoc["statics"] if s_["mutable"] or not s_["freeze"] or s_["thread_local"]]
+        run.ob(not bad_statics, "isolation|no-state", "C17 evaluators share no state: what one evaluator returns cannot depend on calls made to a sibling that only some subsets contain (C16)",
+               "crate statics", "; ".join(s_["path"] for s_ in bad_statics)[:300], sample={"statics": len(fdoc["statics"]), "stateful": 0})
+        entry_chains(run, {ev: Model(FF, ev) for ev in FF.evaluators_present()}, PID)
+    except extract.ExtractError as e:
+        run.fail_closed("all-features fact base unavailable", str(e)[-600:])
     # empty subset: builds and exports nothing
     try:
         d0, info = extract.extract(features=[])
